@@ -26,7 +26,7 @@ var ElPatterns = []string{`^my-`, `^x-[a-z-]+$`, `^h[1-6]$`, `^(b|i|em)$`, `-`, 
 var ElPatternsDanger = []string{`.*`, `^s`, `^(script|style)$`, `(?i)script`, `^.{5,6}$`}
 
 var genAttrNames = []string{"id", "class", "title", "lang", "href", "src", "cite", "rel", "target", "alt", "width", "height", "align", "type", "value", "name",
-	"style", "data-x", "onclick", "xlink:href", "crossorigin", "sandbox", "srcset", "action", "background", "poster", "datetime", "colspan", "x", "role", "aria-label", "media", "method", "http-equiv", "content", "loading", "srcdoc", "download", "hidden", "checked", "disabled", "open", "reversed", "controls", "async", "nowrap", "selected", "required"}
+	"style", "data-x", "data-xml-id", "data-Upper", "onclick", "xlink:href", "crossorigin", "sandbox", "srcset", "action", "background", "poster", "datetime", "colspan", "x", "role", "aria-label", "media", "method", "http-equiv", "content", "loading", "srcdoc", "download", "hidden", "checked", "disabled", "open", "reversed", "controls", "async", "nowrap", "selected", "required"}
 
 var genStyleProps = []string{"color", "background-color", "width", "height", "text-align", "font-size", "margin", "border", "background", "background-image", "font-family",
 	"display", "float", "opacity", "z-index", "text-decoration", "list-style", "transform", "filter", "animation", "behavior", "-moz-binding", "zoom", "x-unknown", "margin-inline-start", "padding-block", "color-start", "border-inline-end", "-webkit-color"}
